@@ -778,6 +778,23 @@ fn main() {
             if args.engine_enabled("utl") {
                 utl_random(&args, &mut rep, prop, sc(30_000.0, 1_000_000.0));
             }
+            if prop == "C05" && args.engine_enabled("u_big_pool") {
+                // sizes far away from the small ones of the histories (a power of two and its neighbours, and more)
+                let mut fs = Vec::new();
+                for n in [255usize, 256, 257, 4095, 4096, 4097, 5000, 70_000] {
+                    let cov = rep.engine("u_big_pool");
+                    cov.evaluations += 1;
+                    cov.events += 2 * n as u64;
+                    let _ = cov.distinct.insert(n as u64);
+                    let _ = cov.nontrivial.insert(n as u64);
+                    for v in utl::big_pool(n) {
+                        cov.bump("violating_cases");
+                        fs.push(Finding { sig: format!("C05/u_big_pool/{}/{}", v.oracle, n), replay: Json::obj().with("engine", "u_big_pool").with("max_size", n as u64).with("message", v.msg.as_str()), v });
+                    }
+                }
+                rep.engine("u_big_pool").sample(Json::from("pools of 255 ... 70000 slots are filled with try_add / add, must take exactly max_size objects and give them all back"));
+                rep.add_findings(fs);
+            }
             if args.engine_enabled("uth_sweep") {
                 th_sweep_unmanaged(&args, &mut rep, prop);
             }
@@ -859,6 +876,22 @@ fn main() {
                 }
             }
             // status() of the unmanaged pool is the same `Status` and the same promise
+            if matches!(prop, "C01" | "C08") && args.engine_enabled("m_big_pool") {
+                let mut fs = Vec::new();
+                for (k, n) in [255usize, 256, 257, 4096, 4097, 70_000].into_iter().enumerate() {
+                    let cov = rep.engine("m_big_pool");
+                    cov.evaluations += 1;
+                    cov.events += 4 * n as u64;
+                    let _ = cov.distinct.insert(n as u64);
+                    let _ = cov.nontrivial.insert(n as u64);
+                    for v in th::race::managed_big_pool(prop, n, k % 2 == 1) {
+                        cov.bump("violating_cases");
+                        fs.push(Finding { sig: format!("{}/m_big_pool/{}/{}", prop, v.oracle, n), replay: Json::obj().with("engine", "m_big_pool").with("max_size", n as u64).with("message", v.msg.as_str()), v });
+                    }
+                }
+                rep.engine("m_big_pool").sample(Json::from("pools of 255 ... 70000 slots: exactly max_size objects can be out at once, twice in a row, with max_size creations in all"));
+                rep.add_findings(fs);
+            }
             // lazy creation against lock contention: full-speed rounds only (no schedule point can sit between
             // a failed try_lock and the decision to create)
             if prop == "C08" && args.engine_enabled("th_race") {
